@@ -176,76 +176,11 @@ def run(repo, rep):
     rep.floor('C10.b', n, 20)
 
     # ---------------------------------------------------------------- C10.c None
-    n = 0
-    pts = repo.func('prettyprinter', 'python_to_sdocs')
-    pname = 'max_seq_len'
-    if pname not in pts.params:
-        raise AnalysisError('python_to_sdocs no longer takes max_seq_len')
-    ctors = [c for c in ast.walk(pts.node) if isinstance(c, ast.Call) and call_name(c) == 'PrettyContext']
-
-    def transfer(st, state):
-        # state: 0 = may be None, 1 = known not None
-        if isinstance(st, ast.Assign) and any(src(t) == pname for t in st.targets):
-            v = st.value
-            if isinstance(v, ast.Constant) and v.value is None:
-                return [0]
-            return [1]
-        return [state]
-
-    def branch(test, state):
-        cp = compare_parts(test)
-        if cp and src(cp[0]) == pname and src(cp[2]) == 'None':
-            if cp[1] in ('is', '=='):
-                return [0], [1]
-            if cp[1] in ('is not', '!='):
-                return [1], [0]
-        return [state], [state]
-    reached = []
-
-    def transfer2(st, state):
-        for c in _walk_no_nested(st):
-            if isinstance(c, ast.Call) and call_name(c) == 'PrettyContext':
-                reached.append((state, c.lineno))
-        return transfer(st, state)
-    fl = Flow(transfer2, lambda st, s: [], branch)
-    fl.run(pts.node, 0)
-    rep.count(fl.visited_stmts)
-    normalised = bool(reached) and all(s == 1 for s, _ in reached)
-    for c in ctors:
-        kw = {k.arg: src(k.value) for k in c.keywords}
-        n += 1
-        rep.check(kw.get('max_seq_len') == pname, 'C10.c', 'python_to_sdocs:passes-setting', '%s:%d' % (m.relpath, c.lineno),
-                  'setting handed to the top-level context', 'top-level context gets max_seq_len=%s' % kw.get('max_seq_len'))
-    # alternatively every comparison site is None-guarded
-    guarded_sites = True
-    cmp_sites = 0
-    for f, node in reads:
-        par = enclosing_map(f.node)
-        p = par.get(id(node))
-        if isinstance(p, (ast.Compare, ast.BinOp)) and not (isinstance(p, ast.Compare) and src(p.comparators[0]) == 'None'):
-            cmp_sites += 1
-            g = Guards(f.node)
-            if not any(_not_none(ff.test, ff.pol, src(node)) for ff in g.of(p)):
-                guarded_sites = False
-    n += 1
-    rep.check(normalised or (guarded_sites and cmp_sites > 0), 'C10.c', 'none-means-unlimited', pts.where,
-              'None normalised before the context is built (or every comparison None-guarded)',
-              'max_seq_len=None (documented: disables truncation) reaches %d ordering comparisons / subtractions in the '
-              'printers unguarded: len(value) > None raises TypeError inside the printer, the container degrades to repr '
-              'with a warning. The sibling Optional setting depth is normalised in python_to_sdocs; this one is not.' % cmp_sites,
-              nontrivial=True)
-    if normalised:
-        # the replacement value is a number no container length exceeds, and islice accepts it
-        for s in ast.walk(pts.node):
-            if isinstance(s, ast.Assign) and any(src(t) == pname for t in s.targets):
-                n += 1
-                v = src(s.value)
-                rep.check(v in ('sys.maxsize', 'maxsize') or (isinstance(s.value, ast.Constant) and isinstance(s.value.value, int)
-                                                              and s.value.value >= 2 ** 31),
-                          'C10.c', 'none-replacement-value', '%s:%d' % (m.relpath, s.lineno),
-                          'replacement is an int no len() exceeds (islice rejects float inf)',
-                          'None is replaced by %s: it must be an integer that no container length exceeds and that islice accepts' % v,
-                          nontrivial=True)
+    # the setting reaches the root context; None (documented: disables truncation) becomes an integer no container length exceeds
+    # (an int, because islice rejects float infinity) - read off the interpreted entry point
+    from . import entrymodel
+    n = entrymodel.report(repo, rep, 'C10.c', lambda k: k in ('ctx:max_seq_len', 'ctx:max_seq_len-none-is-unlimited', 'given:single-path', 'none:single-path'),
+                          'max_seq_len=None must disable truncation: len(value) > None raises TypeError inside the printer and the container degrades to repr')
     # an explicit None must survive the configuration merge (it is not "argument omitted")
     from .c18 import check_merge
     n += check_merge(repo, rep, 'C10.c')
